@@ -73,6 +73,8 @@ class C01(Check):
                 if sp:
                     c['spell'] = sp
             cases.append(c)
+        for (f, cols) in fml.arith_boundary_cases():
+            cases.append({'f': f, 'n': len(cols[0]), 'nv': 2, 'cols': cols, 'times': list(range(len(cols[0])))})
         return cases
 
     def normalize(self, c):
